@@ -195,6 +195,25 @@ func genC12(t *rapid.T) *Scenario {
 		sc.N = 1 // the first input is handed to Join twice (in place of the last one, whose elements are then never sent)
 		sc.In[k-1] = nil
 	}
+	switch rapid.IntRange(0, 9).Draw(t, "backlog") {
+	case 0, 1:
+		// the inputs already hold elements when Join is called
+		sc.PrefillAll = true
+		for i := range sc.Caps {
+			sc.Caps[i] = rapid.IntRange(1, 4).Draw(t, "capFull")
+		}
+	case 2:
+		// one input with a large buffer and a backlog (thresholds on the capacity of an input)
+		if k >= 1 {
+			sc.PrefillAll = true
+			n := rapid.IntRange(20, 60).Draw(t, "lenBig")
+			sc.In[0] = nil
+			for j := 0; j < n; j++ {
+				sc.In[0] = append(sc.In[0], j)
+			}
+			sc.Caps[0] = rapid.SampledFrom([]int{64, 257, 300, 1024, 1025}).Draw(t, "capInput")
+		}
+	}
 	sc.Script = genScript(t, k, 1, false, false, 40+4*k)
 	sc.Twin = k > 0 && rapid.IntRange(0, 4).Draw(t, "twin") == 0
 	return sc
@@ -233,7 +252,7 @@ func genC06(t *rapid.T) *Scenario {
 	case "emit":
 		nIn = 0
 		sc.Mode = rapid.SampledFrom([]string{"pure", "lift", "try"}).Draw(t, "mode")
-		sc.Freq = rapid.SampledFrom([]int{1, 2}).Draw(t, "freq")
+		sc.Freq = rapid.SampledFrom([]int{1, 2, 1, 2, -1, -2}).Draw(t, "freq") // negative: Emit is given a zero / a negative duration
 		sc.Caps = []int{rapid.IntRange(0, 3).Draw(t, "cap")}
 		sc.N = rapid.IntRange(0, 8).Draw(t, "take")
 		tick = true
